@@ -166,7 +166,7 @@ VALUE_STACK_PRE = {
 def action(name):
     kind = SCOPE_ACTIONS[name]
     d = {'kind': 'fn', 'src': PR, 'path': "impl<'parser> ReduceActions for Parser<'parser>::fn " + name, 'key': 'purity::Parser::' + name,
-         'props': P, 'auto_props': A, 'loops': 0, 'ret': 'r', 'impl_header': 'impl Parser {',
+         'props': P + ['C10'], 'auto_props': A, 'loops': 0, 'ret': 'r', 'impl_header': 'impl Parser {',
          'sig_rewrite': [(r'^(\s*)fn ', r'\1pub fn ')],
          'rewrites': [('R3',), ('RX', 'R6', r'trace_action!\(self, "[^"]*"\);', '', 1),
                       ('RX', 'R8a', r'self\.scope\.', 'self.yy_lexer.scope.', None),
@@ -240,7 +240,8 @@ ASSUMPTIONS = ['R8: Scope.contexts is RefCell<Vec<FeelContext>>; the RefCell is 
                'R8a: the parser\'s scope reference and its lexer\'s scope reference are the same object (Parser::new passes its own reference to Lexer::new)',
                'A-grammar: every begin action is the mid-rule action of exactly one production whose reduce action is the matching end action (generated production comments in lalr.rs); the driver calls actions only through lalr::reduce',
                'FeelIterator::run has no access path to the scope other than the handler it is given (it is not passed the scope)']
-NOT_DECIDED = {'C13': ['repeatability of values across evaluation histories (whole-history; follows from scope neutrality only for evaluators without interior state, which is not proved)',
+NOT_DECIDED = {'C10': ['names introduced while parsing (context keys, formal parameters, iteration variables, `partial`) are registered in a temporary context that the matching end action removes: decided per reduce action (same clauses as C13), their pairing over a derivation is A-grammar'],
+               'C13': ['repeatability of values across evaluation histories (whole-history; follows from scope neutrality only for evaluators without interior state, which is not proved)',
                        'a failed parse may leave temporary contexts on the parsing scope (the property only speaks of successful parses)',
                        'balance of begin/end actions over a derivation is a grammar-level fact (A-grammar)']}
 
